@@ -8,11 +8,15 @@ import (
 	"math/rand"
 	"os"
 	"path/filepath"
+	"strings"
+	"sync/atomic"
+	"time"
 
 	"github.com/pegnet/pegnetd/node/pegnet"
 	"verif/lab/forge"
 	"verif/lab/harness"
 	"verif/lab/orch"
+	"verif/lab/vdriver"
 )
 
 // C19 Version lock — bounded-exhaustive session histories. Each history is a sequence of sessions
@@ -25,6 +29,9 @@ type c19Session struct {
 	Blocks  int `json:"blocks"`
 	// Override: the operator starts this session with app.DisableHardForkCheck (a refusal is only a warning)
 	Override bool `json:"override,omitempty"`
+	// Fault: during this session the write of one block's version row fails once (1 = the session's last
+	// block, 2 = its first block, 3 = a fork height inside the session if there is one, else the last block)
+	Fault int `json:"fault,omitempty"`
 }
 
 type c19History struct {
@@ -132,7 +139,36 @@ func c19Batch(j *orch.Job, r *orch.Result) error {
 				continue
 			}
 			legacyFrom := cur
-			nd, err := harness.StartNode(harness.NodeConfig{DBPath: dbp, DisableFork: legacy}, w.Chain)
+			faulty := s.Fault != 0 && !legacy && s.Blocks > 0
+			if faulty {
+				// a transient database fault while an adequate build syncs: the block is rolled back and applied
+				// again; what the database says about who synced which height must not suffer
+				fh := cur + uint32(s.Blocks)
+				switch s.Fault {
+				case 2:
+					fh = cur + 1
+				case 3:
+					for _, f := range forks {
+						if f.ActivationHeight > cur && f.ActivationHeight <= cur+uint32(s.Blocks) {
+							fh = f.ActivationHeight
+						}
+					}
+				}
+				var once int32
+				vdriver.Set(&vdriver.Hooks{Decide: func(ev *vdriver.Event) (vdriver.Action, time.Duration) {
+					if ev.Kind == vdriver.KExec && strings.HasPrefix(ev.SQL, `INSERT INTO "pn_sync_version"`) && len(ev.Args) >= 1 {
+						if hv, ok := ev.Args[0].(int64); ok && uint32(hv) == fh && atomic.CompareAndSwapInt32(&once, 0, 1) {
+							r.Count("version_row_writes_failed_once", 1)
+							return vdriver.FailInstead, 0
+						}
+					}
+					return vdriver.Proceed, 0
+				}})
+			}
+			nd, err := harness.StartNode(harness.NodeConfig{DBPath: dbp, DisableFork: legacy, Wrap: faulty}, w.Chain)
+			if faulty {
+				defer vdriver.Set(nil)
+			}
 			r.Count("starts", 1)
 			refused := false
 			if err != nil {
@@ -192,6 +228,9 @@ func c19Batch(j *orch.Job, r *orch.Result) error {
 				cur = target
 			}
 			nd.Stop()
+			if faulty {
+				vdriver.Set(nil)
+			}
 			if legacy {
 				// a build predating version tracking leaves no rows in pn_sync_version
 				db, err := sql.Open("sqlite3", "file:"+dbp+".v4?_busy_timeout=10000")
@@ -240,6 +279,7 @@ func checkC19(c *Ctx) *orch.Outcome {
 		"a build predating version tracking is emulated by syncing and then deleting the pn_sync_version rows of the heights that session synced; such sessions occur at any position of a history",
 		"fork heights are placed inside or right above the synced range (never below the database's genesis height)",
 		"empty blocks (which build committed a height does not depend on its content)",
+		"in every fifth history the write of one block's version row fails once per tracking session (last block, first block or a fork height): a transient fault, the block is applied again",
 	}
 	rng := rand.New(rand.NewSource(c.Seed))
 	base := StdEras(1000).Pegnet
@@ -349,6 +389,19 @@ func checkC19(c *Ctx) *orch.Outcome {
 		}
 	}
 	hs = append(hs, ov...)
+	// in every fifth history the version-row write of one block per tracking session fails once
+	for i := range hs {
+		if i%5 != 2 {
+			continue
+		}
+		ss := append([]c19Session{}, hs[i].Sessions...)
+		for k := range ss {
+			if ss[k].Version >= 0 && ss[k].Blocks > 0 && !ss[k].Override {
+				ss[k].Fault = 1 + (i/5+k)%3
+			}
+		}
+		hs[i].Sessions = ss
+	}
 	var jobs []orch.Job
 	per := (len(hs) + 31) / 32
 	for i := 0; i < len(hs); i += per {
@@ -392,6 +445,7 @@ func checkC19(c *Ctx) *orch.Outcome {
 	o.Extra["expected_accepts"] = orch.SumCounter(rs, "expected_accepts")
 	o.Extra["override_starts"] = orch.SumCounter(rs, "override_starts")
 	o.Extra["overridden_sessions"] = orch.SumCounter(rs, "override_sessions")
+	o.Extra["version_row_writes_failed_once"] = orch.SumCounter(rs, "version_row_writes_failed_once")
 	if c.Thorough() {
 		o.Exhaustive = true
 		o.Extra["exhaustive_within"] = "all histories of ≤3 sessions × versions {legacy,1,2,3} × blocks {0,1,2,5} × one fork at every height within ±1 of a session boundary × minimum version {1,2,3} × final start version {1,2,3}"
